@@ -2317,7 +2317,16 @@ vbi_decode_teletext(vbi_decoder *vbi, uint8_t *buffer)
 		cvtp->pgno = pgno;
 		vbi->vt.current = rvtp;
 
-		subpage = vbi_unham16p (p + 2) + vbi_unham16p (p + 4) * 256;
+		subpage = vbi_unham16p (p + 2);
+		flags = vbi_unham16p (p + 4);
+
+		/* Note a negative (uncorrectable) low byte must not be
+		   masked by adding a positive high byte. */
+		if ((subpage | flags) >= 0)
+			subpage += flags * 256;
+		else
+			subpage = -1;
+
 		flags = vbi_unham16p (p + 6);
 
 		if (page == 0xFF || (subpage | flags) < 0) {
